@@ -348,7 +348,8 @@ def check(prop, tier, seed, replay=None):
     #    C03: a code issued with a challenge, redeemed (without / with the right / with a wrong verifier) while a storage call fails
     steps_cov = None
     STEP_PARTS = {"C17": ("ScnParFault", ["ParAtMostOnce", "NoTokensOnFailure", "FailClosed", "RetryStillGuarded", "TypeOK"]),
-                  "C03": ("ScnPkceFault", ["NoTokensOnFailure", "FailClosed", "RetryStillGuarded", "TypeOK"])}
+                  "C03": ("ScnPkceFault", ["NoTokensOnFailure", "FailClosed", "RetryStillGuarded", "TypeOK"]),
+                  "C04": ("ScnReuseFault", ["NoTokensOnFailure", "FailClosed", "RetryStillGuarded", "TypeOK"])}
     if prop in STEP_PARTS:
         import steps
         scn, invs = STEP_PARTS[prop]
